@@ -13,7 +13,8 @@ RULE = ("Hypothesis draws a type-correct pipeline over the dual-mode catalogue (
         "<= 5 groups, every group >= 1 item; int / optional-int / float values). Each group's values are run through the plain "
         "pipeline and compared, exactly and in order, with what the keyed run (group_by + with_memory_store; raw mux events with "
         "sparse key indices; multiplex for stateless pipelines) delivers for that group. Cases where the reference model says "
-        "first/last/mean(reduce) sees an empty sequence are rejected and counted. Non-trivial: >= 2 groups genuinely interleaved, "
+        "first/last/mean(reduce) sees an empty sequence are rejected and counted. Sub 'bigint': the same comparison over integers "
+        "around +-2**53 .. +-2**62 through mean/sum/min/max/count/first/last (non-trivial there: a partial sum no double represents). Non-trivial: >= 2 groups genuinely interleaved, "
         ">= 1 stateful node, >= 1 group with output.")
 ASSUMPTIONS = [
     'accumulators return values of the seed type; ints stay within 64 bits',
